@@ -9,8 +9,10 @@ import (
 	"fmt"
 	"io"
 	"math/big"
+	"os"
 	"os/exec"
 	"strings"
+	"sync"
 	"time"
 )
 
@@ -25,25 +27,31 @@ const (
 func (v Verdict) String() string { return [...]string{"unsat", "sat", "unknown"}[v] }
 
 type Solver struct {
-	kind    string // z3 | z3-new | cvc5 (+ "-int": bit-vectors translated to integer arithmetic)
-	intMode bool
-	ranged  []map[string]bool // per push level: BV variables whose range is asserted there
-	bvVars  map[int][]*Term   // term id → BV variables / BV-valued UF apps below it
-	cmd     *exec.Cmd
-	in      io.WriteCloser
-	out     *bufio.Reader
-	defined map[int]bool // term ids already defined
-	declV   map[string]bool
-	declF   map[string]bool
-	depth   int
-	asserted int // number of path-condition entries on the stack (managed by Interp)
-	Queries int
-	Time    time.Duration
-	timeout int // ms per query
-	log     io.Writer
-	Errors  int
-	Hung    int
-	dead    bool
+	kind       string // z3 | z3-new | cvc5 (+ "-int": bit-vectors translated to integer arithmetic)
+	intMode    bool
+	ranged     []map[string]bool // per push level: BV variables whose range is asserted there
+	bvVars     map[int][]*Term   // term id → BV variables / BV-valued UF apps below it
+	cmd        *exec.Cmd
+	in         io.WriteCloser
+	out        *bufio.Reader
+	defined    map[int]bool // term ids already defined
+	declV      map[string]bool
+	declF      map[string]bool
+	depth      int
+	asserted   int // number of path-condition entries on the stack (managed by Interp)
+	Queries    int
+	Time       time.Duration
+	timeout    int // ms per query (full)
+	curTimeout int // ms currently set in the solver process
+	log        io.Writer
+	Errors     int
+	LastError  string
+	Crashed    int
+	mu         sync.Mutex
+	busy       bool
+	cancelled  bool // set by Kill: a check that has not started yet returns Unknown at once
+	Hung       int
+	dead       bool
 }
 
 func NewSolver(kind string, timeoutMs int) (*Solver, error) {
@@ -73,7 +81,7 @@ func NewSolver(kind string, timeoutMs int) (*Solver, error) {
 		return nil, err
 	}
 	s := &Solver{kind: full, intMode: intMode, ranged: []map[string]bool{{}}, bvVars: map[int][]*Term{}, cmd: cmd, in: in, out: bufio.NewReaderSize(outp, 1<<20),
-		defined: map[int]bool{}, declV: map[string]bool{}, declF: map[string]bool{}, timeout: timeoutMs}
+		defined: map[int]bool{}, declV: map[string]bool{}, declF: map[string]bool{}, timeout: timeoutMs, curTimeout: timeoutMs}
 	s.send("(set-option :global-declarations true)")
 	s.send("(set-option :produce-models true)")
 	if kind != "cvc5" {
@@ -85,13 +93,47 @@ func NewSolver(kind string, timeoutMs int) (*Solver, error) {
 	return s, nil
 }
 
+// Kill ends a solver that lost a race while it may still be inside a check; Check then returns Unknown and the next use
+// restarts a fresh process.  A solver that is idle is left alone.
+func (s *Solver) Kill() {
+	s.mu.Lock()
+	busy := s.busy
+	s.cancelled = true
+	s.mu.Unlock()
+	if busy && !s.dead {
+		s.dead = true
+		s.cmd.Process.Kill()
+	}
+}
+
+func (s *Solver) noteError(r string) {
+	if len(r) > 300 {
+		r = r[:300]
+	}
+	s.LastError = r
+	fmt.Fprintf(os.Stderr, "SOLVER-ERROR %s: %s\n", s.kind, r)
+}
+
+// SetTimeout changes the per-query time limit (z3 family only; cvc5's limit is fixed at start). Returns false if
+// the solver cannot change it.
+func (s *Solver) SetTimeout(ms int) bool {
+	if strings.HasPrefix(s.kind, "cvc5") {
+		return ms == s.curTimeout
+	}
+	if ms != s.curTimeout && !s.dead {
+		s.send(fmt.Sprintf("(set-option :timeout %d)", ms))
+		s.curTimeout = ms
+	}
+	return true
+}
+
 // Restart replaces a dead solver process by a fresh one (all definitions and assertions are lost).
 func (s *Solver) Restart() error {
 	n, err := NewSolver(s.kind, s.timeout)
 	if err != nil {
 		return err
 	}
-	n.Queries, n.Time, n.Errors, n.Hung, n.log = s.Queries, s.Time, s.Errors, s.Hung, s.log
+	n.Queries, n.Time, n.Errors, n.Hung, n.Crashed, n.log = s.Queries, s.Time, s.Errors, s.Hung, s.Crashed, s.log
 	*s = *n
 	return nil
 }
@@ -522,6 +564,18 @@ func (s *Solver) Check() Verdict {
 	}
 	start := time.Now()
 	errBefore := s.Errors
+	s.mu.Lock()
+	if s.cancelled {
+		s.mu.Unlock()
+		return Unknown
+	}
+	s.busy = true
+	s.mu.Unlock()
+	defer func() {
+		s.mu.Lock()
+		s.busy = false
+		s.mu.Unlock()
+	}()
 	s.send("(check-sat)")
 	var resp string
 	done := make(chan string, 1)
@@ -530,7 +584,14 @@ func (s *Solver) Check() Verdict {
 		for {
 			r = s.readResponse()
 			if strings.HasPrefix(r, "(error") {
+				if s.dead && strings.Contains(r, "solver died") {
+					// the process was killed by the watchdog or crashed: this query is unknown, the caller restarts a
+					// fresh process and re-asserts the whole stack, so nothing is silently dropped
+					s.Crashed++
+					break
+				}
 				s.Errors++
+				s.noteError(r)
 				if s.dead {
 					break
 				}
@@ -542,7 +603,7 @@ func (s *Solver) Check() Verdict {
 	}()
 	select {
 	case resp = <-done:
-	case <-time.After(time.Duration(2*s.timeout+3000) * time.Millisecond):
+	case <-time.After(time.Duration(2*s.curTimeout+3000) * time.Millisecond):
 		// the solver ignored its own time limit: kill it; the caller restarts a fresh process
 		s.dead = true
 		s.Hung++
@@ -593,6 +654,7 @@ func (s *Solver) Values(vars []*Term, tt *TermTable) map[string]*big.Int {
 		resp := s.readResponse()
 		if strings.HasPrefix(resp, "(error") {
 			s.Errors++
+			s.noteError(resp)
 			return res
 		}
 		parseValues(resp, res)
